@@ -80,15 +80,9 @@ def run(ck, F, E):
                    "set_and_goto_immediate_line writes only %s" % sorted(w),
                    "entering immediate mode also modifies %s: loops / DATA cursor / functions do not survive a break"
                    % sorted(w - {"immediate_line", "location", "stack"}), si.span)
-        ok = False
-        for c in si.calls():
-            if c.callee.endswith("Option::is_none") and "breakpoint" in show(si.expr(c.args[0])) and c.target is not None:
-                ft = bool_switch_true_target(si, c.target)
-                clears = [x for x in si.calls() if x.callee.endswith("Vec::clear") and "stack" in show(si.expr(x.args[0]))]
-                if ft and clears and all(si.dominates(ft[1], x.bb) and x.bb not in si.blocks_reachable_from(ft[0]) or
-                                         (si.dominates(ft[1], x.bb)) for x in clears):
-                    if all(not si.dominates(ft[0], x.bb) for x in clears):
-                        ok = True
+        # every write of Program.stack in it is control dependent on `breakpoint` being None (if / match / let-else forms)
+        from props.C11 import writes_only_without_breakpoint
+        ok = "stack" not in w or writes_only_without_breakpoint(F, E, si.path, "stack")
         ck.require(ok, "C07:IMMEDIATE:stack-kept-while-breakpoint", "immediate mode",
                    "the stack is cleared exactly on the breakpoint.is_none() arm",
                    "the GOSUB/function stack is no longer kept exactly while a breakpoint is pending", si.span)
